@@ -18,6 +18,7 @@ PROPERTIES = {
         "rules": [
             (C.C_find_gates, "C01.1-2 element gate and full-prefix distance check"),
             (A.A6_rotation_gate, "C01.3-4 rotation re-check gates every reported match; tuples and rotations stay paired"),
+            (A.A6r_every_return_through_groups, "C01.3 every return of the search reports the re-checked survivors, never the raw candidates"),
             (A.A7_tolerance_provenance, "C01.2-3 tolerance provenance", {"funcs": ["find_pattern_in_structure", "replace_pattern_in_structure"]}),
             (C.C_idx_find, "C01.4 index spaces: image index folding, parallel results"),
             (A.A1_inputs_not_mutated, "C01.5 search does not modify its inputs",
@@ -43,6 +44,7 @@ PROPERTIES = {
             (B.B2_axis_runs, "C02 per-axis sibling expressions cover axes 0,1,2 exactly once", {"funcs": ["_get_positions_from_all_adjacent_unit_cells", "uc_neighbor_offsets"]}),
             (C.C_idx_find, "C02.3-4 start atoms from the home block; grouping key folds like the result"),
             (A.A6_rotation_gate, "C02.4 at most one survivor per atom group"),
+            (A.A6r_every_return_through_groups, "C02.4 every return of the search reports the per-group survivors, never the raw candidates"),
             (A.A7_tolerance_provenance, "C02.5 filter tolerance", {"funcs": ["find_pattern_in_structure"]}),
             (A2.A14b_fallback_axis, "C02 antiparallel poses: the fallback rotation axis is never degenerate by construction"),
         ],
@@ -345,6 +347,7 @@ for _p in PROPERTIES.values():
 
 # ---- round-3 additions (generic discipline rules and rules added for seeded changes that were missed) ------------------
 from . import fam_g as G      # noqa: E402
+from . import fam_g2 as G2   # noqa: E402
 from . import fam_d2 as D2    # noqa: E402
 
 _SEARCH = (("mofun.mofun", None), ("mofun.helpers", ("atoms_of_type", "atoms_by_type_dict", "group_duplicates", "remove_duplicates", "position_index_farthest_from_axis",
@@ -361,7 +364,7 @@ _SCOPES = {
     "C14": (("mofun.helpers", ("guess_elements_from_masses",)), ("mofun.atoms", ("Atoms.load_lmpdat",))),
     "C15": (("mofun.atoms", ("Atoms.load_p1_cif", "Atoms.save_p1_cif", "Atoms.load", "Atoms.save", "Atoms.cell_abc_alpha_beta_gamma")),),
     "C16": (("mofun.atoms", ("Atoms.load_cml", "Atoms.load", "Atoms.__init__")),),
-    "C17": (("mofun.detect_bonds", None),),
+    "C17": (("mofun.detect_bonds", None), ("mofun.mofun", ("uc_neighbor_offsets",))),
     "C18": (("mofun.rough_uff", None),),
     "C19": (("mofun.rough_uff", None),),
     "C20": (("mofun.cli.mofun_cli", None),),
@@ -393,6 +396,8 @@ for _id, _sc in _SCOPES.items():
     PROPERTIES[_id]["rules"].append((G.G29_parallel_filter_in_loop, "%s a list filtered through a parallel list inside a loop keeps the partner in step" % _id, {"scope": _sc}))
     PROPERTIES[_id]["rules"].append((G.G30_nonzero_rows_with_multiplicity, "%s indices taken from one axis of a 2-D hit matrix are de-duplicated before they become items" % _id, {"scope": _sc}))
     PROPERTIES[_id]["rules"].append((G.G31_reorder_one_of_parallel_lists, "%s lists filled in parallel are re-ordered together or not at all" % _id, {"scope": _sc}))
+    PROPERTIES[_id]["rules"].append((G2.G32_library_semantics, "%s library semantics: strip() character sets, split(' '), np.vectorize on empty input, integer reciprocal, row-wise isin, isclose on indices, borrowed string dtypes, array == literal" % _id, {"scope": _sc}))
+    PROPERTIES[_id]["rules"].append((G2.G34_scratch_reset_on_every_path, "%s a scratch container emptied inside a loop is emptied on every path to the next iteration" % _id, {"scope": _sc}))
     PROPERTIES[_id]["rules"].append((G.G12_set_order, "%s a sequence made from a set is not used as an ordered selector" % _id, {"scope": _sc}))
     PROPERTIES[_id]["rules"].append((G.G10_defined_before_use, "%s every read of a local is reached by an assignment (no statement moved above the one that defines its input)" % _id, {"scope": _sc}))
     PROPERTIES[_id]["rules"].append((G.G7_api_contract_pitfalls, "%s API contracts: insertion points as indices, span versus length, memoised functions / caching properties, stored tables tested by truth value" % _id, {"scope": _sc}))
